@@ -341,7 +341,7 @@ func runC13(c *Ctx) {
 		}, p.CallTo(gSend)), CutSpec{})
 
 		errEdges := p.EdgeSuccs(wa, "nonnil(call:closure:"+FuncName(recv)+"()#1)", "nonnil(call:pkg/resource/protobuf.Unmarshal(*)#1)", "nonnil(call:pkg/resource/protobuf.UnmarshalResource(*)#1)")
-		c.NoReach("R13.4", "every helper/decoding error reaches sendError before anything else is delivered", wa, errEdges, 3, OrInstr(p.CallTo(gSend), IsReturn), CutSpec{Nodes: sendErr})
+		c.NoReach("R13.4", "every helper/decoding error reaches sendError before anything else is delivered", wa, errEdges, 3, OrInstr(p.CallTo(gSend), IsReturn), CutSpec{Nodes: sendErr, Edges: FactEdge("nonnil(call:(context.Context).Err(param#1))")}) // (a done watch context: nobody is left to deliver the error to)
 	}
 
 	// ---------- R13.5 no loss inside a message
